@@ -90,7 +90,9 @@ def scenarios(tier: str):
 
 
 def run_scenario(params: dict, tier: str) -> dict:
-    bound = 1 if tier == 'quick' else 2
+    # three concurrent downloads at bound 2 are ~10^5 executions of 40 ms in one scenario: bound 2 is completed for
+    # two downloads, three downloads are explored at bound 1
+    bound = 1 if (tier == 'quick' or params.get('n', 2) >= 3) else 2
     res = explore(lambda ch: run_one(params, ch), bound=bound, max_exec=6000 if tier == 'quick' else 100000)
     return {'executions': res.executions, 'violations': res.violations, 'states': res.states,
             'transitions': res.transitions, 'outcomes': list(res.outcomes), 'capped': res.capped,
